@@ -130,23 +130,32 @@ theorem runs_put_key (p n : Nat) (hn : n < 2 ^ 32) :
       · intro pos st _ ⟨_, v, s, hs, hm⟩
         exact ⟨_, exec_put pos st _ hs hm, rfl, v, s, hs, rfl⟩
 
-/-- `memo_put` keeps the invariant, adding the new fact. -/
-theorem putOK_S (p : Nat) (s s' : PSt) (key : Option PKey) (pb : Bytes) (h : putS p s key = some (pb, s')) :
+/-- `memo_put` keeps the invariant, adding the new fact (or nothing is written and nothing changes). -/
+theorem putOK_S {mz : Option PKey → Bool} (p : Nat) (s s' : PSt) (key : Option PKey) (pb : Bytes) (h : putS mz p s key = some (pb, s')) :
     PutOK mc hook c (MemoInv p) pb (fun r => ∀ k, key = some k → r = valOf p k) s s' := by
   unfold putS at h
-  by_cases hn : s.n < 2 ^ 32
-  · simp only [hn, if_true, Option.some.injEq, Prod.mk.injEq] at h
+  by_cases hm : mz key = true
+  · simp only [hm, if_true] at h
+    unfold putS1 at h
+    by_cases hn : s.n < 2 ^ 32
+    · simp only [hn, if_true, Option.some.injEq, Prod.mk.injEq] at h
+      obtain ⟨rfl, rfl⟩ := h
+      refine RunsP.weaken (runs_put_key p s.n hn) ?_ ?_
+      · intro st ⟨hinv, r, rest, hs, hm', _⟩
+        exact ⟨hinv.1, r, rest, hs, hm'⟩
+      · intro st st' ⟨hinv, r0, rest0, hs0, _, hv⟩ _ ⟨r, rest, hs, e⟩
+        rw [hs0] at hs
+        injection hs with h1 h2
+        subst h1; subst h2
+        subst e
+        exact ⟨hinv.put hn key r0 hv, rfl, rfl⟩
+    · simp [hn] at h
+  · simp only [hm, Bool.false_eq_true, if_false, Option.some.injEq, Prod.mk.injEq] at h
     obtain ⟨rfl, rfl⟩ := h
-    refine RunsP.weaken (runs_put_key p s.n hn) ?_ ?_
-    · intro st ⟨hinv, r, rest, hs, hm, _⟩
-      exact ⟨hinv.1, r, rest, hs, hm⟩
-    · intro st st' ⟨hinv, r0, rest0, hs0, _, hv⟩ _ ⟨r, rest, hs, e⟩
-      rw [hs0] at hs
-      injection hs with h1 h2
-      subst h1; subst h2
-      subst e
-      exact ⟨hinv.put hn key r0 hv, rfl, rfl⟩
-  · simp [hn] at h
+    refine RunsP.weaken RunsP.nil (fun _ h => h) ?_
+    intro st st' hp _ e
+    subst e
+    exact ⟨hp.1, rfl, rfl⟩
 
 /-- `memo_get` of something the pickler memoized: the value stored for it is pushed. -/
 theorem runs_get (p : Nat) (s : PSt) (k : PKey) (idx : Nat) (hf : s.find k = some idx) :
